@@ -133,14 +133,18 @@ def _chunk(seed, lo, hi, extra):
             open(fa, "w", encoding="utf-8", newline="").write(a)
             open(fb, "w", encoding="utf-8", newline="").write(b)
             rows = [(None, None)] + [(f, n) for f in ("diff", "old", "xml") for n in (0, 1, 2, 3)]
+            # the matching mode rotates over the three modes of the differ (the statement is about every way of diffing)
+            dopts, cli_mode = [({}, []), ({"fast_match": True}, ["--fast-match"]), ({"best_match": True}, ["--best-match"])][idx % 3]
+            desc["diff_options"] = repr(dopts)
+            st.count("matching_mode_" + (cli_mode[0][2:] if cli_mode else "default"))
             for fname, norm in rows:
                 mk = {None: lambda: None, "diff": lambda: formatting.DiffFormatter(normalize=norm),
                       "old": lambda: formatting.XmlDiffFormatter(normalize=norm), "xml": lambda: formatting.XMLFormatter(normalize=norm)}[fname]
                 strips = True if fname is None else bool(norm & 1)
                 row = {"formatter": fname, "normalize": norm, **desc}
                 try:
-                    via_text = main.diff_texts(a, b, formatter=mk())
-                    via_file = main.diff_files(fa, fb, formatter=mk())
+                    via_text = main.diff_texts(a, b, diff_options=dict(dopts), formatter=mk())
+                    via_file = main.diff_files(fa, fb, diff_options=dict(dopts), formatter=mk())
                 except Exception as e:  # noqa
                     st.failures.append({"sig": f"C14/raises/{real.exc_sig(e)}/{fname}/{norm}", **row})
                     continue
@@ -162,7 +166,7 @@ def _chunk(seed, lo, hi, extra):
                     import contextlib, io
                     for keep in (False, True):
                         buf = io.StringIO()
-                        argv = [fa, fb, "-f", fname] + (["--keep-whitespace"] if keep else [])
+                        argv = [fa, fb, "-f", fname] + (["--keep-whitespace"] if keep else []) + cli_mode
                         try:
                             with contextlib.redirect_stdout(buf):
                                 main.diff_command(argv)
